@@ -25,7 +25,9 @@ VARIABLES l, mfiles, mcur, cfiles, ccur,
 Trace == ndJsonDeserialize("trace.ndjson")
 T == Trace[l]
 svars == <<pvars, l, mfiles, mcur, cfiles, ccur, nStarts, nBad, nConn, thr>>
-ThrOff == [on |-> FALSE, min |-> 0, cap |-> 0, tok |-> 0, rec |-> FALSE]
+ThrOff == [on |-> FALSE, min |-> 0, cap |-> 0, tok |-> 0, rec |-> FALSE, win |-> TRUE]
+\* thr.win: whether the recording window read from config.toml is open during the run (runs are scripted with
+\* windows that lie an hour around or an hour after the current time)
 RECURSIVE SumLen(_, _)
 SumLen(fs, k) == IF k = 0 THEN 0 ELSE Len(fs[k]) + SumLen(fs, k - 1)      \* frames in the first k files
 
@@ -61,7 +63,7 @@ Upd == /\ \E st \in {Collect([mfiles |-> mfiles, mcur |-> mcur, cfiles |-> cfile
             /\ nStarts' = st.nst         \* recordings started at the storage layer (what brackets automatic FFC)
        /\ UNCHANGED nConn
 
-AllOk(mo) == [motion |-> mo, win |-> TRUE, disk |-> TRUE, mStart |-> TRUE, mPre |-> 0, mW |-> TRUE, mStop |-> TRUE,
+AllOk(mo) == [motion |-> mo, win |-> thr.win, disk |-> TRUE, mStart |-> TRUE, mPre |-> 0, mW |-> TRUE, mStop |-> TRUE,
               cStart |-> TRUE, cW |-> TRUE, cStop |-> TRUE, sStart |-> TRUE, sW |-> TRUE, sStop |-> TRUE]
 
 TConn == /\ T.ev = "conn"          \* a new camera connection: new processor, settings from the generated config
@@ -74,7 +76,7 @@ TConn == /\ T.ev = "conn"          \* a new camera connection: new processor, se
          /\ cfiles' = (IF T.newrun THEN <<>> ELSE cfiles)
          /\ nStarts' = (IF T.newrun THEN 0 ELSE nStarts) /\ nBad' = (IF T.newrun THEN 0 ELSE nBad)
          /\ nConn' = (IF T.newrun THEN 1 ELSE nConn + 1)
-         /\ thr' = (IF "ThrCap" \in DOMAIN T THEN [on |-> TRUE, min |-> T.ThrMin, cap |-> T.ThrCap, tok |-> T.ThrCap, rec |-> FALSE] ELSE ThrOff)
+         /\ thr' = (IF "ThrCap" \in DOMAIN T THEN [on |-> TRUE, min |-> T.ThrMin, cap |-> T.ThrCap, tok |-> T.ThrCap, rec |-> FALSE, win |-> TRUE] ELSE [ThrOff EXCEPT !.win = (IF "WinOpen" \in DOMAIN T THEN T.WinOpen ELSE TRUE)])
 TFrame == T.ev = "frame" /\ Frame(AllOk(T.motion)) /\ fid' = T.id /\ Upd /\ UNCHANGED nBad
 TClear == T.ev = "clear" /\ Reset(TRUE) /\ Upd /\ UNCHANGED nBad
 TBad   == T.ev = "bad" /\ BadFrame(TRUE, TRUE) /\ Upd /\ nBad' = nBad + 1
